@@ -529,9 +529,22 @@ async fn spawn_pipeline_processes(
             }
         };
 
-        let spawn_result = command
+        let spawn_result = match command
             .execute_in_pipeline(pipeline_context, cmd_params)
-            .await?;
+            .await
+        {
+            Ok(spawn_result) => spawn_result,
+            // A stage that runs in a subshell of its own must not take the parent shell down
+            // with it: report the error there and reduce it to the stage's status.
+            Err(err) if !run_in_current_shell => {
+                let mut stderr = params.stderr(shell);
+                let _ = shell.display_error(&mut stderr, &err);
+                ExecutionSpawnResult::Completed(ExecutionResult::from(
+                    err.into_result(shell).exit_code,
+                ))
+            }
+            Err(err) => return Err(err),
+        };
 
         // Update the process group ID if something was spawned.
         if let ExecutionSpawnResult::StartedProcess(child) = &spawn_result {
